@@ -23,11 +23,11 @@ CHECKS = {
          "a worker that makes no progress for 120 s is reported as inconclusive (exit 2), not as a violation; behaviour of accessors called on a message after its reader returned an error is not asserted; cannot show absence"),
  "C05": ("DESIGN.md §4 C05",
          "generated-input search with a differential/round-trip oracle: packet bodies generated field by field by an independent RFC 9580 encoder (every one-octet id from the listed values or 0..255, all length classes, canonical MPIs, all subpacket types incl. critical/unknown/embedded/long areas, every S2K usage and type), canonical framing; oracle on accepted values: byte-identical re-encoding, truthful write_len at body/packet/with-header level, header de-framed by an independent de-framer, parse(serialize(v)) == v; plus API-built and API-mutated objects",
-         "exploration: ~60k (thorough 1.5M) generated packets over all packet types and versions + 4k (60k) API objects (certificates of 17 zoo keys incl. locked forms, set_password_with_s2k/remove_password with Cfb/Aead x S2K kinds, Subpacket::regular over multi-byte strings, unhashed subpacket edits, detached signatures, re-framed literal packets, every packet of serialized certificates)",
+         "exploration: ~60k (thorough 1.5M) generated packets over all packet types and versions + 4k (60k) API objects (certificates of 17 zoo keys incl. locked forms, set_password_with_s2k/remove_password with Cfb/Aead x S2K kinds, Subpacket::regular over multi-byte strings, unhashed subpacket edits, detached signatures, re-framed literal packets, every packet of serialized certificates) + 20k (400k) API-built subpacket values (every SubpacketData variant through constructors and setters, carried by a fresh signature) + 6k (150k) packets built through the public constructors (literal, one-pass v3/v6, PKESK v3/v6 to every recipient algorithm, SKESK v4/v6, SEIPDv1/v2 at chunk edges, user id, image attribute, padding)",
          "public-key material of the structured algorithms is harvested from zoo keys (fabricated points would be rejected by the parser); Trust packet content is ignored by rPGP by design and is excluded; inputs the parser rejects are counted, not judged"),
  "C06": ("DESIGN.md §4 C06",
          "generated-input search: exhaustive strings over {CR,LF,x} (length<=L) + random strings over the canonicalization alphabet, every sign interface crossed with every applicable verify interface (pairwise oracle: own signature must verify), prefixed messages assembled by an independent framer",
-         "exploration: all 3-symbol strings up to length 6 (thorough 8) and random Sigma strings incl. buffer-edge placements; sign interfaces {detached binary/text, SignatureConfig::sign, hasher+Write chunks, builder 1..3 signers, cleartext sign/new/new_many} x verify interfaces {Signature::verify, DetachedSignature::verify, re-parsed binary/armored, Message::verify prefixed and one-pass, verify_nested, extracted one-pass signature as detached, cleartext verify/verify_many/after armor}; all zoo algorithms sampled",
+         "exploration: all 3-symbol strings up to length 6 (thorough 8) and random Sigma strings incl. buffer-edge placements; sign interfaces {detached binary/text, SignatureConfig::sign, hasher+Write chunks, builder 1..3 signers, cleartext sign/new/new_many; UserId/UserAttribute::sign(_third_party), PublicSubkey/SecretSubkey::sign, sign_primary_key_binding, SignatureConfig::sign_key} x verify interfaces {Signature::verify, DetachedSignature::verify, re-parsed binary/armored, Message::verify prefixed and one-pass, verify_nested, extracted one-pass signature as detached, cleartext verify/verify_many/after armor}; all zoo algorithms sampled",
          "only completeness (own signatures verify) is asserted here; soundness is C02; hash algorithms are restricted to those rPGP documents as strong enough for the key"),
  "C07": ("DESIGN.md §4 C07",
          "generated-input search over (key shape, RNG seed) with validity and round-trip oracles: bindings and back signatures verify, export/import equality, requested flags/preferences/features present, sign/verify and encrypt/decrypt usability incl. wrong-password refusal, independent de-framing and key-packet decoding of the export; illegal shapes must be refused",
